@@ -83,6 +83,14 @@ def gen(rng, i, tier):
         vis = axis(rng, rng.randint(2, 6), vmax * rng.choice([0.05, 0.2, 0.5]), vmax)
         imax = max(imax, 5e-3 * nio * vmax)
         ios = axis(rng, nio, imax * rng.choice([1e-2, 0.1, 0.3]), imax, zero_first=rng.random() < 0.3, min_step=5e-4 * max(vmax, imax))
+    # number types: a table read from a TOML / JSON file (or typed by hand) has whole-number axes as Python ints
+    numtype = rng.choice(["float", "float", "float", "int_axes", "int_axes", "int_io", "int_vi"])
+    if numtype in ("int_axes", "int_vi"):
+        vis = sorted(rng.sample(range(2, 61), len(vis)))
+    if numtype in ("int_axes", "int_io"):
+        ios = sorted(rng.sample(range(0 if rng.random() < 0.4 else 1, 13), nio)) if nio <= 12 else list(range(nio))
+        if len(vis) > 1 and numtype == "int_io":
+            vis = [v * 10.0 for v in vis] if max(vis) < 12 else vis  # keep io steps >= 1e-4 of the largest coordinate
     if z == "eff":
         val = lambda: G.sig(rng.uniform(0.3, 1.0), 4)
     elif z == "vdrop":
@@ -126,7 +134,7 @@ def gen(rng, i, tier):
     else:
         form = "plain"
     return {"kind": kind, "z": z, "table": tab, "qseed": rng.randrange(1 << 30), "const": const,
-            "nq": 40 if tier == "quick" else 60, "axis_form": form}
+            "nq": 40 if tier == "quick" else 60, "axis_form": form, "numtype": numtype}
 
 
 def directed():
@@ -242,6 +250,7 @@ def run(ctx, case):
     kind, z, raw_tab = case["kind"], case["z"], case["table"]
     tab = normalised(raw_tab, z)
     ctx.see("axis_forms", case.get("axis_form", "plain"))
+    ctx.see("number_types", case.get("numtype", "float"))
     st, comp = H.call(S.make_comp, ns, _c("X", kind, probe_spec(kind, z, raw_tab, 5.0, 1.0)["comps"][1]["args"], ["S"]))
     if st != "ok":
         raise RuntimeError("well-conditioned table rejected: %s" % H.exc_sig(comp))
